@@ -448,3 +448,38 @@ Qed.
 Theorem ctor_check_fast_sound k num den n e ds ended :
   ctor_check_fast k num den n e ds ended = true -> ctor_spec k num den n e ds ended.
 Proof. rewrite ctor_check_fast_eq. apply ctor_check_sound. Qed.
+
+(* ---- C13 in the statement's own form: digit p = floor(v * 10^(p+1-e)) mod 10 ---- *)
+Lemma trunc_is_floor num den e j M : 0 < den ->
+  trunc_ok KRat num den e j M ->
+  M = (num * p10 (Z.of_nat j - e)) / (p10 (e - Z.of_nat j) * den).
+Proof.
+  intros Hden (H1 & H2). cbn [power_of pw] in H1, H2. rewrite !Z.mul_1_l in H1, H2.
+  assert (Hp : 0 < p10 (e - Z.of_nat j)) by (unfold p10; apply Z.pow_pos_nonneg; lia).
+  apply Z.div_unique_pos with (r := num * p10 (Z.of_nat j - e) - M * (p10 (e - Z.of_nat j) * den)); nia.
+Qed.
+
+Lemma firstn_S_nth {A} (l : list A) : forall p d, nth_error l p = Some d -> firstn (S p) l = firstn p l ++ [d].
+Proof.
+  induction l as [|x r IH]; intros p d H; [destruct p; discriminate|].
+  destruct p as [|p].
+  - cbn in H. inversion H. reflexivity.
+  - cbn [nth_error] in H. change (firstn (S (S p)) (x :: r)) with (x :: firstn (S p) r).
+    change (firstn (S p) (x :: r)) with (x :: firstn p r). rewrite (IH p d H). reflexivity.
+Qed.
+
+Theorem rat_digit_formula num den n e ds ended p d : 0 < den ->
+  ctor_spec KRat num den n e ds ended -> nth_error ds p = Some d ->
+  d = ((num * p10 (Z.of_nat (S p) - e)) / (p10 (e - Z.of_nat (S p)) * den)) mod 10.
+Proof.
+  intros Hden Sp Hd.
+  assert (Hlt : (p < length ds)%nat) by (apply nth_error_Some; congruence).
+  pose proof (cs_trunc _ _ _ _ _ _ _ Sp (S p) ltac:(lia)) as T1.
+  apply trunc_is_floor in T1; auto. rewrite <- T1.
+  (* the first p+1 digits = the first p digits followed by d *)
+  assert (E : firstn (S p) ds = firstn p ds ++ [d]) by (apply firstn_S_nth; exact Hd).
+  rewrite E, val_snoc.
+  pose proof (cs_range _ _ _ _ _ _ _ Sp) as R. rewrite Forall_forall in R.
+  assert (0 <= d <= 9) by (apply R; eapply nth_error_In; eauto).
+  rewrite Z.add_comm, Z.mul_comm, Z.mod_add by lia. symmetry. apply Z.mod_small. lia.
+Qed.
